@@ -118,6 +118,10 @@ pub struct OrderBook<const LEVELS: usize = 10> {
     /// executed (but orders can still be
     /// placed and modified)
     trading: bool,
+    /// Smallest time-stamp not yet used as part
+    /// of a key in the price-time priority queue
+    #[serde(skip_serializing)]
+    next_key_time: Nanos,
 }
 
 /// Order rejection errors
@@ -167,7 +171,21 @@ impl<const LEVELS: usize> OrderBook<LEVELS> {
             orders: Vec::new(),
             trades: Vec::new(),
             trading,
+            next_key_time: 0,
         }
+    }
+
+    /// Get the time-stamp used to queue an order
+    ///
+    /// This is the current time, unless an order has already
+    /// been queued at (or after) the current time, in which
+    /// case the next unused time-stamp is returned. Keys in
+    /// the priority queue are hence unique, and orders queued
+    /// at the same time keep the order they were queued in.
+    fn get_key_time(&mut self) -> Nanos {
+        let t = self.t.max(self.next_key_time);
+        self.next_key_time = t + 1;
+        t
     }
 
     /// Get the order book time
@@ -499,7 +517,7 @@ impl<const LEVELS: usize> OrderBook<LEVELS> {
             self.match_bid(order_entry);
         }
         if order_entry.order.status != Status::Filled {
-            let key: OrderKey = (Side::Bid, order_entry.key.1, self.t);
+            let key: OrderKey = (Side::Bid, order_entry.key.1, self.get_key_time());
             order_entry.key = key;
             self.bid_side
                 .insert_order(key, order_entry.order.order_id, order_entry.order.vol)
@@ -542,7 +560,7 @@ impl<const LEVELS: usize> OrderBook<LEVELS> {
             self.match_ask(order_entry);
         }
         if order_entry.order.status != Status::Filled {
-            let key: OrderKey = (Side::Ask, order_entry.key.1, self.t);
+            let key: OrderKey = (Side::Ask, order_entry.key.1, self.get_key_time());
             order_entry.key = key;
             self.ask_side
                 .insert_order(key, order_entry.order.order_id, order_entry.order.vol)
@@ -701,7 +719,7 @@ impl<const LEVELS: usize> OrderBook<LEVELS> {
         if order_entry.order.status != Status::Filled {
             match order_entry.key.0 {
                 crate::types::Side::Bid => {
-                    let key: OrderKey = get_bid_key(self.t, new_price);
+                    let key: OrderKey = get_bid_key(self.get_key_time(), new_price);
                     order_entry.key = key;
 
                     self.bid_side.insert_order(
@@ -711,7 +729,7 @@ impl<const LEVELS: usize> OrderBook<LEVELS> {
                     );
                 }
                 crate::types::Side::Ask => {
-                    let key: OrderKey = get_ask_key(self.t, new_price);
+                    let key: OrderKey = get_ask_key(self.get_key_time(), new_price);
                     order_entry.key = key;
 
                     self.ask_side.insert_order(
@@ -905,8 +923,12 @@ impl<const LEVELS: usize> std::convert::TryFrom<OrderBookState<LEVELS>> for Orde
     fn try_from(state: OrderBookState<LEVELS>) -> Result<Self, Self::Error> {
         let mut bid_side = BidSide::default();
         let mut ask_side = AskSide::default();
+        let mut next_key_time = 0;
 
         for OrderEntry { order, key } in state.orders.iter() {
+            if order.status != Status::New {
+                next_key_time = next_key_time.max(key.2 + 1);
+            }
             if order.status == Status::Active {
                 match order.side {
                     Side::Bid => bid_side.insert_order(*key, order.order_id, order.vol),
@@ -924,6 +946,7 @@ impl<const LEVELS: usize> std::convert::TryFrom<OrderBookState<LEVELS>> for Orde
             orders: state.orders,
             trades: state.trades,
             trading: state.trading,
+            next_key_time,
         })
     }
 }
